@@ -1,3 +1,4 @@
+import GBProofs.FormulaProofs
 import GBProofs.ScreenLaws
 /-!
 # C20 — overlap screening
